@@ -33,7 +33,11 @@ Proof.
       assert (HS : has_suffix ((base ++ [slash]) ++ name) (slash :: name) = true).
       { replace ((base ++ [slash]) ++ name) with (base ++ (slash :: name)) by (rewrite <- app_assoc; reflexivity).
         apply has_suffix_app. }
-      rewrite HS. rewrite trim_suffix_app. apply trim_prefix_app2.
+      rewrite HS. rewrite trim_suffix_app.
+      destruct (str_eqb_spec (((base ++ [slash]) ++ name) ++ [slash]) (base ++ [slash])) as [E|_].
+      { exfalso. apply (f_equal (@length _)) in E. rewrite !app_length in E. simpl in E.
+        pose proof (valid_path_nonempty name Vn). destruct name; [congruence|simpl in E; lia]. }
+      apply trim_prefix_app2.
 Qed.
 
 Lemma strip_err_sub base name c : valid_path base = true -> valid_path name = true ->
@@ -260,4 +264,23 @@ Example mount_rename_names_demo :
   /\ snd (m_rename m (S "a/f") (S "a/nodir/g")) = VErr (LinkErr (S "a/f") (S "a/nodir/g") ENOENT).
 Proof.
   vm_compute. split; [repeat constructor; discriminate|]. split; [repeat constructor|]. split; reflexivity.
+Qed.
+
+(* the repaired case: an error of the parent that names the view's base directory itself is about the view's root *)
+Theorem strip_path_sub_base base name : valid_path base = true -> valid_path name = true ->
+  base <> dot -> name <> dot ->
+  strip_path name (sub_route base name) base = dot.
+Proof.
+  intros Vb Vn Db Dn. unfold sub_route. rewrite Vn. rewrite (join2_valid base name Vb Vn). unfold strip_path.
+  destruct (str_eqb_spec base dot) as [|_]; [contradiction|].
+  replace (base ++ slash :: name) with ((base ++ [slash]) ++ name) by (rewrite <- app_assoc; reflexivity).
+  destruct (str_eqb_spec name ((base ++ [slash]) ++ name)) as [E|_].
+  { exfalso. apply (f_equal (@length _)) in E. rewrite !app_length in E. simpl in E. lia. }
+  destruct (str_eqb_spec name dot); [contradiction|].
+  assert (HS : has_suffix ((base ++ [slash]) ++ name) (slash :: name) = true).
+  { replace ((base ++ [slash]) ++ name) with (base ++ (slash :: name)) by (rewrite <- app_assoc; reflexivity).
+    apply has_suffix_app. }
+  rewrite HS. rewrite trim_suffix_app. rewrite str_eqb_refl.
+  destruct (str_eqb name ((base ++ [slash]) ++ name)) eqn:E; [|reflexivity].
+  exfalso. apply str_eqb_eq in E. apply (f_equal (@length _)) in E. rewrite !app_length in E. simpl in E. lia.
 Qed.
